@@ -30,10 +30,14 @@ def dv(v):
         return [dv(x) for x in v[1]]
     if t == 't':
         return tuple(dv(x) for x in v[1])
+    if t == 'n':
+        return None
     raise ValueError(v)
 
 
 def ev(r):
+    if r is None:
+        return ['n']
     if isinstance(r, bool):
         return ['b', int(r)]
     if isinstance(r, int):
@@ -132,7 +136,12 @@ def vabs(a):
 
 UN = {'neg': neg, 'abs': vabs}
 
+def _boom(x):
+    raise RuntimeError('boom')
+
+
 FUNCS = {
+    'boom': _boom,
     'inc': lambda x: BIN['add'](x, 1),
     'dbl': lambda x: BIN['mul'](x, 2),
     'neg': neg,
@@ -253,6 +262,8 @@ def ref(e, mode='str'):
             for j in counter(r):
                 for i in range(n):
                     sub = items[(i + off) % n]
+                    if len(sub) == 1 and sub[0][0] == 'val' and sub[0][1][0] in 'lt' and e[4][(i + off) % n]:
+                        sub = [['val', x] for x in sub[0][1][1]]     # a list/tuple value is indexed too
                     yield from R(sub[j % len(sub)], 'emb')
         return lace()
     if k == 'Plen':
